@@ -36,7 +36,17 @@ def _run_one(job):
     t0 = time.time()
     try:
         shutil.copytree(os.path.join(repo, 'diskcache'), os.path.join(d, 'diskcache'))
-        if fn == 'UNPARSE':
+        if fn.startswith('AUTO:'):
+            # whole-package automatic behaviour-preserving transformation (tools/auto_transform.py)
+            import glob as _g
+            sys.path.insert(0, os.path.join(HERE, 'tools'))
+            import auto_transform as _at
+            for fp in _g.glob(os.path.join(d, 'diskcache', '*.py')):
+                with open(fp) as f:
+                    fs = f.read()
+                with open(fp, 'w') as f:
+                    f.write(_at.transform(fn[5:], fs))
+        elif fn == 'UNPARSE':
             # whole-package normalisation: comments dropped, layout, quoting, parentheses and line numbers changed
             import ast as _ast
             import glob as _g
@@ -134,6 +144,8 @@ def run(rule_filter=None, jobs=None, repo=None, quiet_rules=None):
         work.append(('quiet', 'refactor:' + os.path.basename(os.path.dirname(pf)), 'PATCH', pf, None, qrules, baseline,
                      repo, False))
     work.append(('quiet', 'normalise:ast.unparse-whole-package', 'UNPARSE', None, None, qrules, baseline, repo, False))
+    for mode in ('rename', 'invert', 'reorder', 'swapcmp', 'fstring', 'ternary', 'all'):
+        work.append(('quiet', 'auto-transform:' + mode, 'AUTO:' + mode, None, None, qrules, baseline, repo, False))
     for m in QUIET:
         mid, fn, old, new = m[:4]
         work.append(('quiet', mid, fn, old, new, qrules, baseline, repo, 'helper' in mid or (len(m) > 4 and m[4] == 'all')))
